@@ -1,6 +1,7 @@
 import BoltonsVerif.C04.Proofs
 import BoltonsVerif.C04.Closed
 import BoltonsVerif.C04.View
+import BoltonsVerif.C04.Names
 import BoltonsVerif.Generated.C04_Consts
 /-
 C04 — property theorems: a trace accepted by `SafeTrace` is crash safe at every prefix under both
@@ -451,5 +452,58 @@ example : let fs0 : FS := ⟨[⟨[7], [], 0o644⟩], ⟨some 0, none⟩, [], non
 example : let fs0 : FS := ⟨[⟨[7], [], 0o644⟩, ⟨[9, 9], [], 0o640⟩], ⟨some 0, some 1⟩, [], none, 0o022⟩
     fs0.hasPart = true ∧ exec fs0 (saverTrace {} fs0 ⟨[([1], 0)], false⟩) = none := by decide
 
+
+/-! ### round 3: the name of the part file -/
+
+/-- translator obligation (regenerated from the current source on every run): the default part file
+    name is the destination path plus a NON-EMPTY suffix without a path separator -/
+theorem source_part_suffix : Gen.partSuffix ≠ [] ∧ Gen.partSuffix.contains '/' = false := by decide
+
+/-- **The part file is a different entry of the destination's own directory.**  For a destination
+    with a plain base name `d` and a `part_file` argument that is absent, empty or a plain file name,
+    whenever the constructor accepts (`partName … = some n`) the part file's name `n` is a plain name
+    (one entry of the destination's directory, so publication never crosses a file system) and differs
+    from `d` (the two names of the file-system model `C04.Dir` really are two names).  A `part_file` that
+    names the destination itself is refused. -/
+theorem part_name_distinct_same_dir (d : Name) (pf : Option Name) (hd : d.plain = true)
+    (hpf : ∀ m, pf = some m → m = [] ∨ m.plain = true) :
+    (∀ n, partName Gen.partSuffix d pf = some n → n ≠ d ∧ n.plain = true) ∧
+    (pf = some d → partName Gen.partSuffix d pf = none) ∧
+    (pf ≠ some d → ∃ n, partName Gen.partSuffix d pf = some n) := by
+  refine ⟨fun n h => ⟨partName_ne_dest _ d pf n source_part_suffix.1 h,
+    partName_plain _ d pf n source_part_suffix.1 source_part_suffix.2 hd hpf h⟩, ?_, ?_⟩
+  · intro h; subst h
+    have : d.isEmpty = false := by
+      cases d with
+      | nil => simp [Name.plain] at hd
+      | cons _ _ => rfl
+    simp [partName, this]
+  · intro h
+    cases pf with
+    | none => exact ⟨_, rfl⟩
+    | some m =>
+      by_cases h1 : m.isEmpty = true
+      · exact ⟨d ++ Gen.partSuffix, by simp [partName, h1]⟩
+      · by_cases h2 : m = d
+        · exact absurd (by rw [h2]) h
+        · exact ⟨m, by simp [partName, h1, h2]⟩
+
+/-- non-vacuity: the default name, an explicit name, the empty name, the refused name -/
+example : partName Gen.partSuffix "dest.txt".toList none = some "dest.txt.part".toList ∧
+    partName Gen.partSuffix "dest.txt".toList (some "x.tmp".toList) = some "x.tmp".toList ∧
+    partName Gen.partSuffix "dest.txt".toList (some []) = some "dest.txt.part".toList ∧
+    partName Gen.partSuffix "dest.txt".toList (some "dest.txt".toList) = none ∧
+    Name.plain "dest.txt".toList = true := by decide
+
+/-- why the refusal is needed: were the part file the destination itself, the "exclusive creation of the
+    part file" is the creation of an EMPTY destination in place and every write goes to the destination
+    directly - a process death after the creation leaves an empty destination where there was none, one
+    after the first write a truncated one (the events are those of `direct_write_breaks`) -/
+theorem part_named_as_dest_breaks :
+    let fs0 : FS := ⟨[], ⟨none, none⟩, [], none, 0o022⟩
+    let t := [Ev.truncDest, .writeDest [1, 2], .writeDest [3]]
+    SafeTrace t = false ∧ fs0.readDest = none ∧
+      (exec fs0 (t.take 1)).map FS.destAfterProcCrash = some (some []) ∧
+      (exec fs0 (t.take 2)).map FS.destAfterProcCrash = some (some [1, 2]) := by decide
 
 end C04
